@@ -1148,6 +1148,45 @@ def check_key_sources(chk, F):
     chk.floor(R, "definite keys", n, 12)
 
 
+# ---- R14.11 Plan::update_psbt_input: scripts ------------------------------------------------------------------------------
+
+def check_plan_updater(chk, F):
+    from . import assembly
+    from ..builtins import PyMap
+    spec = assembly.spec
+    R = "R14.11"
+    chk.rule(R, "Plan::update_psbt_input records, per descriptor type, exactly the redeem / witness script of BIP-174 (sh(wsh): "
+                "witness script and its P2WSH program as redeem script; sh(wpkh) / sh(ms): the inner script as redeem script; "
+                "wsh: the witness script; nothing for bare / pkh / wpkh) -- the same table as the descriptor-driven updater")
+    try:
+        fn = [q for q in F.fns if q.startswith("plan::Plan") and q.endswith("::update_psbt_input")][0]
+    except IndexError:
+        chk.fail(R, "anchor", "Plan::update_psbt_input not found", kind="unanalysable")
+        return
+    chk.saw(fn)
+    vals = assembly.values()
+    hooks = dict(assembly.script_hooks())
+    DESC = "descriptor::Descriptor"
+    for name, v in vals.items():
+        dv = Adt(DESC, {"Bare": "Bare", "Pkh": "Pkh", "Wpkh": "Wpkh", "Wsh": "Wsh"}.get(name, "Sh"), {"0": v})
+        plan = Adt("plan::Plan", "Plan", {"template": PyVec([]), "absolute_timelock": NONE, "relative_timelock": NONE, "descriptor": dv})
+        m = Machine(F, strict=False, hooks=hooks, uninterpreted=assembly.unint)
+        item = mk_input("item")
+        for n in ("redeem_script", "witness_script"):
+            item.fields[n] = NONE
+        item.fields["bip32_derivation"] = PyMap([])
+        try:
+            m.call_path(fn, [plan, item])
+        except Unsupported as e:
+            chk.fail(R, "unanalysable:" + name, "unanalysable: %s" % e, where=e.where, kind="unanalysable")
+            continue
+        red = assembly.nf(item.fields["redeem_script"].fields["0"]) if item.fields["redeem_script"].variant == "Some" else None
+        wit = assembly.nf(item.fields["witness_script"].fields["0"]) if item.fields["witness_script"].variant == "Some" else None
+        want = spec.PSBT_SCRIPTS[name]
+        chk.obligation(R, (red, wit) == want, name, "recorded redeem_script=%r witness_script=%r; BIP-174 expects %r" % (red, wit, want),
+                       where="src/plan.rs")
+
+
 def run(chk):
     F = chk.facts()
     chk.explanation = __doc__
@@ -1173,3 +1212,4 @@ def run(chk):
     if not ONLY or "9" in ONLY:
         chk.guard("R14.9", "updater-taproot", check_updater_taproot, chk, F)
         chk.guard("R14.10", "key-sources", check_key_sources, chk, F)
+        chk.guard("R14.11", "plan-updater", check_plan_updater, chk, F)
